@@ -405,7 +405,9 @@ class DbFn(Fn):
             nt = self.narrow_test(s.test)
             if nt:
                 some_b, none_b = (s.orelse, s.body) if nt[1] else (s.body, s.orelse)
+                ty = self.env[nt[0]]
                 none_t = self.block(none_b + rest, k, kc)
+                self.env[nt[0]] = ty
                 some_t = self.narrowed(nt[0], lambda: self.block(some_b + rest, k, kc))
                 return "(match %s with None => %s | Some %s => %s end)" % (nt[0], none_t, nt[0], some_t)
             if self.cond(s.test) == "true": return self.block(s.body + rest, k, kc)
@@ -538,5 +540,5 @@ def main(out_path):
 if __name__ == "__main__":
     try:
         main(sys.argv[1] if len(sys.argv) > 1 else os.path.join(os.path.dirname(os.path.dirname(os.path.abspath(__file__))), "coq", "Gen", "TofuGen.v"))
-    except Untranslatable as e:
+    except (Untranslatable, OSError, SyntaxError) as e:
         print("UNTRANSLATABLE:", e); sys.exit(2)
